@@ -483,6 +483,8 @@ theorem addMod_ok (k src : Int) (x : U α) :
   split
   · split <;> exact ⟨rfl, rfl, rfl⟩
   split
+  · split <;> exact ⟨rfl, rfl, rfl⟩
+  split
   · exact ⟨rfl, rfl, rfl⟩
   split
   · exact ⟨rfl, rfl, rfl⟩
@@ -498,7 +500,9 @@ theorem rmMod_ok (k : Int) (x : U α) :
   split
   · split <;> exact ⟨rfl, rfl, rfl⟩
   split
-  · exact ⟨rfl, rfl, rfl⟩
+  · split <;> exact ⟨rfl, rfl, rfl⟩
+  split
+  · split <;> exact ⟨rfl, rfl, rfl⟩
   split
   · exact ⟨rfl, rfl, rfl⟩
   split
